@@ -104,6 +104,13 @@ Proof.
   - destruct (is_space x); [now apply IH|reflexivity].
 Qed.
 
+Lemma trim_left_app_nonspace : forall l c m, is_space c = false -> trim_left (l ++ c :: m) = trim_left l ++ c :: m.
+Proof.
+  induction l as [|x l IH]; intros c m H; cbn [app trim_left].
+  - now rewrite H.
+  - destruct (is_space x); [now apply IH|reflexivity].
+Qed.
+
 Lemma trim_right_nil : trim_right [] = [].
 Proof. reflexivity. Qed.
 
@@ -123,6 +130,14 @@ Lemma trim_right_cons_nonspace : forall c t, is_space c = false -> trim_right (c
 Proof.
   intros c t H. unfold trim_right. rewrite !frev_rev. cbn [rev].
   rewrite trim_left_snoc by assumption. rewrite rev_app_distr. reflexivity.
+Qed.
+
+(* trailing white space is only removed behind the last non-blank byte *)
+Lemma trim_right_app_nonspace : forall a c t, is_space c = false -> trim_right (a ++ c :: t) = a ++ c :: trim_right t.
+Proof.
+  intros a c t H. unfold trim_right. rewrite !frev_rev. rewrite rev_app_distr. cbn [rev].
+  rewrite <- app_assoc. cbn [app]. rewrite trim_left_app_nonspace by assumption.
+  rewrite rev_app_distr. cbn [rev]. rewrite rev_involutive. rewrite <- app_assoc. reflexivity.
 Qed.
 
 (* a non-empty trimmed string: first and last byte are not white space *)
@@ -423,22 +438,57 @@ Fixpoint final_text (X : list ascii) (cs : list cont) : list ascii :=
 
 Definition value_tail (cs : list cont) : list ascii := flat_map (fun c => SP :: c_text c) cs.
 
+Lemma cut_comment_marker : forall a m t, nocmt a -> is_cmt m = true -> cut_comment (a ++ m :: t) = a.
+Proof.
+  unfold nocmt. induction a as [|c a IH]; intros m t H Hm.
+  - cbn [app cut_comment]. now rewrite Hm.
+  - cbn [forallb] in H. apply andb_true_iff in H. destruct H as [H1 H2]. apply negb_true_iff in H1.
+    cbn [app cut_comment]. rewrite H1. now rewrite IH.
+Qed.
+
+(* the blanks in front of an in-line remark reach the buffer (and are trimmed by write()) *)
+Definition extra (pad : list ascii) (c : option (bool * list ascii)) : list ascii :=
+  match c with None => [] | Some _ => pad end.
+
+Lemma cmt_raw_some : forall semi t, exists m, cmt_raw (Some (semi, t)) = m :: t /\ is_cmt m = true /\ is_space m = false.
+Proof. intros [|] t; eexists; (split; [reflexivity|split; reflexivity]). Qed.
+
 (* the physical lines of one definition, started with an empty or partial buffer *)
-Lemma conts_run : forall cs ind X B sec w trail,
-  all_space ind -> all_space trail ->
+Lemma conts_run : forall cs ind X B sec w pad c,
+  all_space ind -> all_space pad -> wf_cmt c = true ->
   X <> [] -> trimmedb X = true -> nocmt X ->
   Forall (fun c => wf_cont c = true /\ nocmt (c_text c)) cs ->
   is_header (final_text X cs) = false -> ends_with "\" (final_text X cs) = false ->
-  steps (mkSt sec B false w) (map trim (cont_lines (ind ++ X) cs trail))
-  = Ok (mkSt sec (B ++ X ++ value_tail cs) true w).
+  steps (mkSt sec B false w) (map trim (cont_lines (ind ++ X) cs (pad ++ cmt_raw c)))
+  = Ok (mkSt sec (B ++ X ++ value_tail cs ++ extra pad c) true w).
 Proof.
-  induction cs as [|a cs IH]; intros ind X B sec w trail Hi Ht HX HXt HXc Hcs Hh He.
+  induction cs as [|a cs IH]; intros ind X B sec w pad c Hi Ht Hcm HX HXt HXc Hcs Hh He.
   - cbn [cont_lines map steps final_text value_tail flat_map] in *.
-    rewrite <- app_assoc. rewrite trim_pad by assumption.
-    destruct X as [|c t]; [congruence|].
-    rewrite step_last; try assumption.
-    + rewrite cut_comment_id by assumption. now rewrite app_nil_r.
-    + cbn [is_skip]. now apply nocmt_head in HXc.
+    destruct X as [|xc xt]; [congruence|].
+    destruct (trimmedb_cons _ _ HXt) as [Hxc _].
+    destruct c as [[semi t]|].
+    + (* with an in-line remark *)
+      destruct (cmt_raw_some semi t) as [m [Em [Hm Hms]]].
+      unfold wf_cmt in Hcm. rewrite Em in *.
+      repeat (apply andb_true_iff in Hcm; destruct Hcm as [Hcm ?]).
+      rename H into Hg2, H0 into Hg1. apply negb_true_iff in Hg1. apply negb_true_iff in Hg2.
+      rewrite trim_right_cons_nonspace in Hg1, Hg2 by assumption.
+      assert (E : trim ((ind ++ xc :: xt) ++ pad ++ m :: t) = ((xc :: xt) ++ pad) ++ m :: trim_right t).
+      { unfold trim. rewrite <- app_assoc. rewrite trim_left_space_app by assumption.
+        cbn [app]. rewrite trim_left_nonspace by assumption.
+        change (xc :: xt ++ pad ++ m :: t) with ((xc :: xt) ++ pad ++ m :: t). rewrite app_assoc.
+        now apply trim_right_app_nonspace. }
+      rewrite E. rewrite step_last.
+      * rewrite cut_comment_marker; [|apply nocmt_app; [assumption|now apply nocmt_space]|assumption].
+        cbn [extra]. reflexivity.
+      * cbn [app is_skip]. now apply nocmt_head in HXc.
+      * unfold is_header. rewrite ends_with_app by discriminate. rewrite Hg2. apply andb_false_r.
+      * rewrite ends_with_app by discriminate. exact Hg1.
+    + cbn [cmt_raw extra]. rewrite !app_nil_r.
+      rewrite <- app_assoc. rewrite trim_pad by assumption.
+      rewrite step_last; try assumption.
+      * now rewrite cut_comment_id by assumption.
+      * cbn [is_skip]. now apply nocmt_head in HXc.
   - inversion Hcs as [|? ? [Ha Hac] Hcs']; subst.
     unfold wf_cont in Ha. repeat (apply andb_true_iff in Ha; destruct Ha as [Ha ?]).
     rename H into Htr, H0 into Hne, H1 into Hind, H2 into Htrail.
@@ -448,20 +498,20 @@ Proof.
     assert (E : (ind ++ X) ++ c_pad a ++ "\" :: c_trail a = ind ++ (X ++ c_pad a ++ ["\"]) ++ c_trail a).
     { rewrite <- !app_assoc. reflexivity. }
     rewrite E. clear E.
-    destruct X as [|c t]; [congruence|].
+    destruct X as [|xc t]; [congruence|].
     destruct (trimmedb_cons _ _ HXt) as [Hc _].
-    assert (Etr : trimmedb ((c :: t) ++ c_pad a ++ ["\"]) = true).
-    { apply (trimmedb_intro c (t ++ c_pad a ++ ["\"]) ((c :: t) ++ c_pad a) "\").
+    assert (Etr : trimmedb ((xc :: t) ++ c_pad a ++ ["\"]) = true).
+    { apply (trimmedb_intro xc (t ++ c_pad a ++ ["\"]) ((xc :: t) ++ c_pad a) "\").
       - cbn [app]. now rewrite <- app_assoc.
       - assumption.
       - reflexivity. }
     rewrite trim_pad by assumption.
-    assert (El : (c :: t) ++ c_pad a ++ ["\"] = ((c :: t) ++ c_pad a) ++ ["\"]) by now rewrite <- app_assoc.
+    assert (El : (xc :: t) ++ c_pad a ++ ["\"] = ((xc :: t) ++ c_pad a) ++ ["\"]) by now rewrite <- app_assoc.
     rewrite step_cont.
     + rewrite El. rewrite removelast_last. rewrite trim_pad_r by assumption.
       rewrite cut_comment_id by (apply nocmt_app; [assumption|reflexivity]).
       cbn [final_text] in Hh, He.
-      rewrite (IH (c_ind a) (c_text a) (B ++ (c :: t) ++ [SP]) sec w trail); try assumption.
+      rewrite (IH (c_ind a) (c_text a) (B ++ (xc :: t) ++ [SP]) sec w pad c); try assumption.
       * f_equal. f_equal. cbn [value_tail flat_map]. rewrite <- !app_assoc. reflexivity.
       * destruct (c_text a); [discriminate|discriminate].
     + cbn [app is_skip]. now apply nocmt_head in HXc.
